@@ -264,7 +264,7 @@ def step (s : SD) : Op → SD × Out
     | some v' => (s, .val v')
     | none => ({ s with data := setKey k v s.data }, .val v)
   | .clear => ({ s with data := [] }, .unit)
-  | .copy => (s, .unit)
+  | .copy => (({ s with data := updateD [] s.data }).clean, .unit)   -- `__copy__` re-inserts the items with `update`, which runs `_clean`
   | .construct o => ({ data := updateD [] o }, .unit)
   | .merge a => (s.merge a, .unit)
 
@@ -286,7 +286,7 @@ def dstep (d : Entries) : Op → Entries × Out
     | some v' => (d, .val v')
     | none => (setKey k v d, .val v)
   | .clear => ([], .unit)
-  | .copy => (d, .unit)
+  | .copy => (updateD [] d, .unit)
   | .construct o => (updateD [] o, .unit)
   | .merge a => (mergeD false [] d a.data, .unit)
 
